@@ -1,10 +1,25 @@
 import DdsModel.Eval
 import DdsProofs.Args
+import DdsProofs.Memo
+import DdsProofs.MemoExample
 /-!
 # C01 — memoised evaluation returns exactly what plain execution would return
 
-Stage 1 of the proof (DESIGN §5 C01, §10): the operational facts about `evalStep` that the history
-induction rests on. (`sig_sound` — a signature determines the plain value — is stage 2.)
+The property, for the load-free fragment of the model (items `call`, `callArgs`, `ref`, `keep`; literal, default,
+keyword and run-time arguments; data functions; any nesting depth; any number of versions of the code), over a
+`Universe` of function versions (hypotheses: the text determines the program; `dds_hash` injective on the values
+that occur — C05 says exactly where it is not; distinct parameter names):
+
+* `sig_sound`       — two analysed calls with the same return signature, in any two versions, have the same plain value;
+* `memo_correct`    — one evaluation against a sound store returns the plain value / raises the plain exception and
+                      leaves a sound store;
+* `history_correct` — after any history (older versions, other values, restricted stages, failures) from an empty
+                      store, an evaluation returns what plain execution of the current version returns.
+Non-vacuity: `DdsProofs/MemoExample.lean` (a concrete universe with two versions, all hypotheses proved, the
+history computed by the kernel). PARTIAL: pipelines with `dds.load` are outside these three theorems (they are
+decided by the three-way execution of the check); classes / lambdas are outside the model.
+
+Operational facts:
 
 * `served_only_on_hit`: a kept call returns a stored blob only if a blob sits under exactly the key the
   analysis fixed for that path; otherwise it runs the function and stores the result under that key;
@@ -38,5 +53,33 @@ theorem root_hit_runs_nothing (m : Nat) (W : World) (S : PStore) (rq : Request)
     (hb : sgGet S.blobs fis.retSig = some v) :
     (evalStep m W S rq).log = [] ∧ (evalStep m W S rq).value = .ok (some v) := by
   simp [evalStep, h, hs, hb]
+
+/-- **a signature determines the plain value** (calls made inside evaluations of any two versions of the code) -/
+theorem sig_sound (U : Universe) (m : Nat) {W1 W2 : World} {fn1 fn2 : Fn} {ctx1 ctx2 : ArgCtx} {env1 env2 : Env}
+    (c1 : Chain U m W1 fn1 ctx1 env1) (c2 : Chain U m W2 fn2 ctx2 env2)
+    (hW1 : U.world W1) (hW2 : U.world W2) (hext : W1.extVersion = W2.extVersion) (hU1 : U.fns fn1) (hU2 : U.fns fn2)
+    {fuel1 fuel2 : Nat} {refs1 refs2 : Refs} {stack1 stack2 : List String} {fis1 fis2 : FIS} {r1 r2 : Refs}
+    (h1 : analyse m W1 fuel1 refs1 stack1 fn1 ctx1 = .ok (fis1, r1))
+    (h2 : analyse m W2 fuel2 refs2 stack2 fn2 ctx2 = .ok (fis2, r2))
+    (hs : fis1.retSig = fis2.retSig) (p1 p2 : PSt) :
+    (plainFn W1 fuel1 p1 fn1 env1).1 = (plainFn W2 fuel2 p2 fn2 env2).1 :=
+  sig_sound_full U m c1 c2 hW1 hW2 hext hU1 hU2 h1 h2 hs p1 p2
+
+/-- **one evaluation against a sound store** returns the plain value and leaves a sound store -/
+theorem memo_correct (U : Universe) (m x : Nat) (W : World) (S : PStore) (rq : Request)
+    (hW : U.world W) (hx : W.extVersion = x) (hrq : U.request rq) (hS : Sound U m x S) :
+    Sound U m x (evalStep m W S rq).store ∧
+    ∀ fn env fis' paths, analysisPhase m W S rq = .ok (fn, env, fis', paths) → Stage.eval ∈ rq.stages →
+      ∀ p, (evalStep m W S rq).value = ((plainFn W W.fuel p fn env).1).map some :=
+  Dds.memo_correct U m x W S rq hW hx hrq hS
+
+/-- **C01 over histories**: whatever was evaluated earlier against the same store -/
+theorem history_correct (U : Universe) (m x : Nat) (noop : Bool) (hist : List HStep) (hok : ∀ s ∈ hist, s.ok U x)
+    (W : World) (rq : Request) (hW : U.world W) (hx : W.extVersion = x) (hrq : U.request rq)
+    (fn : Fn) (env : Env) (fis : FIS) (paths : List (String × Sg))
+    (ha : analysisPhase m W (runHistory m { noop := noop } hist) rq = .ok (fn, env, fis, paths))
+    (hs : Stage.eval ∈ rq.stages) (p : PSt) :
+    (evalStep m W (runHistory m { noop := noop } hist) rq).value = ((plainFn W W.fuel p fn env).1).map some :=
+  Dds.history_correct U m x noop hist hok W rq hW hx hrq fn env fis paths ha hs p
 
 end Dds.C01
